@@ -358,6 +358,9 @@ func runC14(ctx *core.Ctx, idx int) *core.Result {
 	if idx%3 == 0 {
 		c14CLI(ctx, res, r.Intn, pt, files, pi)
 	}
+	if idx%6 == 1 {
+		c14CLIGuarded(ctx, res, g)
+	}
 	if n, first := raceReports(); n > racesBefore {
 		res.Violate("C14/data-race", fmt.Sprintf("%d new race detector report(s)\n%s", n-racesBefore, first), map[string]string{"p.patch": pt})
 	}
@@ -511,5 +514,90 @@ func c14CLI(ctx *core.Ctx, res *core.Result, intn func(int) int, pt string, file
 			res.Violate("C14/data-race-in-cli", core.Trunc(string(b), 4000), map[string]string{"p.patch": pt})
 			return
 		}
+	}
+}
+
+// c14CLIGuarded: every change of every patch carries a package clause, and the files of one directory belong to
+// several packages (pk, its external tests pk_test, a main program behind a build tag). What happens to a file must
+// not depend on which siblings are processed with it, in whatever order.
+func c14CLIGuarded(ctx *core.Ctx, res *core.Result, g *gen.G) {
+	r := g.R
+	base, _ := os.MkdirTemp(ctx.Tmp, "c14g")
+	defer os.RemoveAll(base)
+	pt := "@@\nvar x expression\n@@\n package pk\n\n-bump(x)\n+bump(x + 1)\n\n@@\n@@\n-package pk\n+package pk\n\n-oldName\n+newName\n"
+	if r.Intn(2) == 0 {
+		pt = "@@\nvar x expression\n@@\n package pk\n\n-bump(x)\n+bump(x + 1)\n"
+	}
+	os.WriteFile(filepath.Join(base, "p.patch"), []byte(pt), 0o644)
+	pkgs := []string{"pk_test", "pk", "main", "pk", "documentation", "pk", "pk_test", "pk"}
+	var names, files []string
+	for i, pk := range pkgs {
+		src := g.File(gen.FileOpts{Plants: []gen.Plant{{Kind: "expr", Text: "bump(" + g.Atom() + ")"}, {Kind: "expr", Text: "use(oldName)"}}, Decls: 1 + r.Intn(3)})
+		src = strings.Replace(src, "package p\n", "package "+pk+"\n", 1)
+		if pk == "main" {
+			src = "//go:build ignore\n\n" + src
+		}
+		dir := []string{"", "", "", "", "sub/", "sub/", "sub/", "other/"}[i]
+		names = append(names, fmt.Sprintf("%s%c_%s.go", dir, 'a'+i, pk))
+		files = append(files, src)
+	}
+	run := func(sub string, args []string) (map[int]string, *core.CLIResult) {
+		d := filepath.Join(base, sub)
+		for i := range files {
+			os.MkdirAll(filepath.Dir(filepath.Join(d, names[i])), 0o755)
+			os.WriteFile(filepath.Join(d, names[i]), []byte(files[i]), 0o644)
+		}
+		cr := ctx.RunCLI(core.CLIOpts{Dir: d, Args: append([]string{"-p", "../p.patch"}, args...)})
+		res.Ob("cli-runs", 1)
+		out := map[int]string{}
+		for i := range files {
+			b, _ := os.ReadFile(filepath.Join(d, names[i]))
+			out[i] = string(b)
+		}
+		return out, cr
+	}
+	solo := map[int]string{}
+	for i := range files {
+		o, cr := run(fmt.Sprintf("solo%d", i), []string{names[i]})
+		if cc := cr.CrashClass(); cc != "" {
+			res.Violate("C14/"+cc, string(cr.Stderr), map[string]string{"p.patch": pt, "in.go": files[i]})
+			return
+		}
+		solo[i] = o[i]
+		if (solo[i] != files[i]) != (pkgs[i] == "pk") {
+			res.Violate("C14/package-guard-in-solo-run", fmt.Sprintf("%s (package %s): changed=%v", names[i], pkgs[i], solo[i] != files[i]), map[string]string{"p.patch": pt, "in.go": files[i], "actual.go": solo[i]})
+			return
+		}
+	}
+	groups := [][]string{{"."}, {"./..."}, append([]string{}, names...), {names[0], names[1]}, {names[1], names[0]}, {"sub", names[3], names[2]}, {"other", "sub", "."}, {"--skip-generated", "."}, {"-v", "."}}
+	perm := append([]string{}, names...)
+	r.Shuffle(len(perm), func(i, j int) { perm[i], perm[j] = perm[j], perm[i] })
+	groups = append(groups, perm)
+	for gi, args := range groups {
+		o, cr := run(fmt.Sprintf("group%d", gi), args)
+		res.Evals++
+		if cc := cr.CrashClass(); cc != "" {
+			res.Violate("C14/"+cc, string(cr.Stderr), map[string]string{"p.patch": pt})
+			return
+		}
+		for i := range files {
+			covered := false
+			for _, a := range args {
+				d := strings.TrimSuffix(strings.TrimSuffix(a, "..."), "/")
+				if a == names[i] || d == "." || d == "" || (d != "" && strings.HasPrefix(names[i], d+"/")) {
+					covered = true
+				}
+			}
+			want := files[i]
+			if covered {
+				want = solo[i]
+			}
+			if o[i] != want {
+				res.Violate("C14/grouped-result-differs-from-solo", fmt.Sprintf("package-guarded patch, arguments %v: %s (package %s) differs from its solo run", args, names[i], pkgs[i]),
+					map[string]string{"p.patch": pt, "in.go": files[i], "solo.go": solo[i], "actual.go": o[i]})
+				return
+			}
+		}
+		res.Sig("guarded", gi, "cli")
 	}
 }
